@@ -89,7 +89,7 @@ def libReaders : List String :=
 /-- classification of a use `fn.f.X` found in the methods of `formulaFuncs` -/
 def classifyLibUse (s : String) : Option Write :=
   if s == "f.CalcCellValue" then some .ctx          -- re-entry with its own fresh context: the same frame again
-  else if s == "f.parseReference" then some .localVar -- the evaluator's own function (`evalInternal`)
+  else if s == "f.parseReference" || s == "f.cellResolver" then some .localVar -- the evaluator's own functions (`evalInternal`); ANCHORARRAY resolves its cells through `cellResolver` in the running context
   else if s == "f.options" then some .localVar        -- field read
   else if libReaders.contains s then some (.part 0)
   else none
